@@ -113,6 +113,18 @@ func (vc *VC) runAnchors(f *Frame, st *State, in ssa.Instruction, after bool) {
 	if vc.c == nil || (len(vc.c.Ghosts) == 0 && len(vc.c.Asserts) == 0) {
 		return
 	}
+	if !f.top {
+		// anchors also apply inside closures of the function under contract (e.g. a sync.Once body), not in other inlined functions
+		isClosure := false
+		for p := f.fn.Parent(); p != nil; p = p.Parent() {
+			if p == vc.fn {
+				isClosure = true
+			}
+		}
+		if !isClosure {
+			return
+		}
+	}
 	ci, ok := in.(ssa.CallInstruction)
 	if !ok {
 		return
